@@ -118,26 +118,35 @@ macro_rules! loop_read_to_end {
     }};
 }
 
+/// `orig_len` is the length of the caller's string, which is valid UTF-8 and is
+/// handed back untouched when the bytes read after it are not.
 #[inline]
-fn after_read_to_string(res: io::Result<usize>, buf: Vec<u8>) -> BufResult<usize, String> {
+fn after_read_to_string(
+    res: io::Result<usize>,
+    buf: Vec<u8>,
+    orig_len: usize,
+) -> BufResult<usize, String> {
+    // Drop the read bytes if they are not valid utf8 bytes, keeping the caller's.
+    let keep_original = |err: std::string::FromUtf8Error| {
+        let utf8_error = err.utf8_error();
+        let mut buf = err.into_bytes();
+        buf.truncate(orig_len);
+        // SAFETY: the first `orig_len` bytes came from a `String`
+        (utf8_error, unsafe { String::from_utf8_unchecked(buf) })
+    };
     match res {
         Err(err) => {
-            // we have to clear the read bytes if it is not valid utf8 bytes
-            let buf = String::from_utf8(buf).unwrap_or_else(|err| {
-                let mut buf = err.into_bytes();
-                buf.clear();
-
-                // SAFETY: the buffer is empty
-                unsafe { String::from_utf8_unchecked(buf) }
-            });
-
+            let buf = String::from_utf8(buf).unwrap_or_else(|err| keep_original(err).1);
             BufResult(Err(err), buf)
         }
         Ok(n) => match String::from_utf8(buf) {
-            Err(err) => BufResult(
-                Err(std::io::Error::new(ErrorKind::InvalidData, err)),
-                String::new(),
-            ),
+            Err(err) => {
+                let (utf8_error, buf) = keep_original(err);
+                BufResult(
+                    Err(std::io::Error::new(ErrorKind::InvalidData, utf8_error)),
+                    buf,
+                )
+            }
             Ok(data) => BufResult(Ok(n), data),
         },
     }
@@ -172,8 +181,9 @@ pub trait AsyncReadExt: AsyncRead {
 
     /// Read all bytes as [`String`] until underlying reader reaches `EOF`.
     async fn read_to_string(&mut self, buf: String) -> BufResult<usize, String> {
+        let orig_len = buf.len();
         let BufResult(res, buf) = self.read_to_end(buf.into_bytes()).await;
-        after_read_to_string(res, buf)
+        after_read_to_string(res, buf, orig_len)
     }
 
     /// Read all bytes until underlying reader reaches `EOF`.
@@ -181,7 +191,9 @@ pub trait AsyncReadExt: AsyncRead {
         &mut self,
         mut buf: t_alloc!(Vec, u8, A),
     ) -> BufResult<usize, t_alloc!(Vec, u8, A)> {
-        loop_read_to_end!(buf, total: usize, loop self.read(buf.slice(total..)))
+        // Append after what the buffer already holds.
+        let start = buf.len();
+        loop_read_to_end!(buf, total: usize, loop self.read(buf.slice(start + total..)))
     }
 
     /// Read the exact number of bytes required to fill the vectored buf.
@@ -307,8 +319,9 @@ pub trait AsyncReadAtExt: AsyncReadAt {
     /// Read all bytes as [`String`] until EOF in this source, placing them into
     /// `buffer`.
     async fn read_to_string_at(&self, buf: String, pos: u64) -> BufResult<usize, String> {
+        let orig_len = buf.len();
         let BufResult(res, buf) = self.read_to_end_at(buf.into_bytes(), pos).await;
-        after_read_to_string(res, buf)
+        after_read_to_string(res, buf, orig_len)
     }
 
     /// Read all bytes until EOF in this source, placing them into `buffer`.
@@ -326,7 +339,9 @@ pub trait AsyncReadAtExt: AsyncReadAt {
         mut buffer: t_alloc!(Vec, u8, A),
         pos: u64,
     ) -> BufResult<usize, t_alloc!(Vec, u8, A)> {
-        loop_read_to_end!(buffer, total: u64, loop self.read_at(buffer.slice(total as usize..), pos + total))
+        // Append after what the buffer already holds.
+        let start = buffer.len();
+        loop_read_to_end!(buffer, total: u64, loop self.read_at(buffer.slice(start + total as usize..), pos + total))
     }
 
     /// Like [`AsyncReadExt::read_vectored_exact`], expect that it reads at a
